@@ -87,6 +87,7 @@ def run(ctx, cfg):
         before.insert(rng.randrange(len(before) + 1), ["pil", rng.choice(["length a = 5\n", "X = a( b )\r\n", "x = a( b\n"])])
         before.insert(rng.randrange(len(before) + 1), ["seesaw", rng.choice(["INPUT(1) = w[1,2]\n", "seesaw[", "INPUT(1) = w[1,2]\r\n"])])
         extra.append({"kind": "history", "text": rng.choice([crpool, tabpool, kwpool, pool][j % 4]), "before": before})
+    extra += reuse_cases(cfg, rng, S, pool + other, quick)
     out = run_oracle(ORACLE, {"cases": extra})
     spec += out["failures"]
     ctx.cov["oracle_checked"] = out["checked"]
@@ -123,6 +124,41 @@ def run(ctx, cfg):
     conclude(ctx, res, runner, diffs + pseudo, search)
 
 
+EDITS = ["pop-keyword", "append", "leaves", "clear-top", "clear-deep", "reverse", "all"]
+
+
+def reuse_cases(cfg, rng, S, pool, quick):
+    """a returned token tree belongs to the caller: texts are parsed, the results destroyed in place, and the same texts
+    parsed again (one statement of every kind on its own; the same text twice; a document, then its statements; a
+    statement repeated inside one document; mixed sequences with rejected texts; through one re-written file)"""
+    by_kind = {}
+    for c in S["valid"]:
+        by_kind.setdefault(c["kind"], []).append(c["text"])
+    out = []
+    for j, kind in enumerate(k for k in cfg["kinds"] if k in by_kind):
+        out.append({"kind": "reuse", "texts": [rng.choice(by_kind[kind])], "edit": EDITS[j % len(EDITS)], "via": "string"})
+    valid = [c["text"] for c in S["valid"]]
+    for j in range(35 if quick else 350):
+        dc = rng.choice(S["documents"])
+        whole = dc["prologue"] + "".join(dc["texts"])
+        t = rng.choice(valid)
+        shape = j % 5
+        if shape == 0:
+            texts = [t, t]
+        elif shape == 1:
+            texts = [whole] + rng.sample(dc["texts"], min(len(dc["texts"]), rng.randint(1, 3)))
+        elif shape == 2:
+            twice = t.rstrip("\r\n") + "\n" + t
+            texts = [twice, t] if rng.random() < 0.5 else [twice]
+        elif shape == 3:
+            texts = [rng.choice(pool) for _ in range(rng.randint(2, 4))]
+            texts.insert(rng.randrange(len(texts) + 1), rng.choice(texts))
+        else:
+            texts = [whole]
+        out.append({"kind": "reuse", "texts": texts, "edit": rng.choice(EDITS), "via": "file" if j % 3 == 2 else "string"})
+    return out
+
+
 def snippet_for(cfg, f):
     fn, fn_file = cfg["fn"], cfg["fn_file"]
     k = f["kind"]
@@ -139,11 +175,13 @@ def snippet_for(cfg, f):
 
 
 def witness(cfg, f):
+    f = dict(f)
+    snippet = f.pop("snippet", None) or snippet_for(cfg, f)     # the oracle supplies the program for histories with edits
     key = {"kind": f["kind"], "text": f.get("text", "")}
     if f.get("fault"):
         key["fault"] = f["fault"]
     return {"key": key, "input": f, "what": f.get("what") or f"{f['kind']}: expected {f.get('expected')!r}, observed {f.get('observed')!r}",
-            "snippet": snippet_for(cfg, f)}
+            "snippet": snippet}
 
 
 def replay(cfg, data):
